@@ -2112,3 +2112,19 @@ package mcp
 //@   track s.delegate.Read as forward
 //@   assert at call s.delegate.Read: @the-log-lock-is-not-held-across-the-read !held(logmu)
 //@   ensures @forwarded-exactly-once calls(forward) == 1
+
+// The legacy SSE server transport (C02 on SSE: responses of concurrently finishing handlers each arrive whole).
+// SSEServerTransport.mu guards the closed flag and every write to the hanging GET's ResponseWriter: a message event is
+// written inside the critical section that checked the flag, so two writers never interleave their bytes and nothing
+// is written after the GET exited; exactly one event is written per message, with the encoded message as its data.
+//@ monitor ssemu lock SSEServerTransport.mu as t [C02]
+//@   protects fields(SSEServerTransport.closed)
+//@   trust-section (*SSEServerTransport).ServeHTTP
+//@   trust-section (*SSEServerTransport).Connect
+//@ func (*sseServerConn).Write [C02]
+//@   track writeEvent as emit
+//@   track EncodeMessage as encode
+//@   requires s != nil && s.t != nil
+//@   modifies *
+//@   assert at call writeEvent: @events-are-written-inside-the-transport-lock held(ssemu) && !s.t.closed && $0 == s.t.Response && $1.Name == "message" && $1.Data == callResult(encode, 1, 0)
+//@   ensures @at-most-one-event-per-message calls(emit) <= 1
